@@ -74,15 +74,16 @@ const (
 )
 
 type Task struct {
-	ID     int
-	Name   string
-	state  taskState
-	rfd    int
-	wfd    int
-	want   *sync.Mutex
-	wantRW *sync.RWMutex
-	wantR  bool
-	s      *Sched
+	ID      int
+	Name    string
+	state   taskState
+	rfd     int
+	wfd     int
+	want    *sync.Mutex
+	wantRW  *sync.RWMutex
+	wantR   bool
+	wantKey any // a simulated lock that is no mutex (a sync.Once)
+	s       *Sched
 	// cond-wait
 	waitCond  *sync.Cond
 	condWoken bool
@@ -223,6 +224,8 @@ func (s *Sched) candidates() (cands []*Task, live int) {
 			} else if t.wantRW != nil {
 				r := s.rec(t.wantRW)
 				free = r.owner == nil && (t.wantR || r.readers == 0)
+			} else if t.wantKey != nil {
+				free = s.rec(t.wantKey).owner == nil
 			}
 			if free {
 				cands = append(cands, t)
@@ -537,6 +540,34 @@ func (s *Sched) CondBroadcast(c *sync.Cond) {
 			t.condWoken = true
 		}
 	}
+}
+
+//go:norace
+func (s *Sched) OnceDo(o *sync.Once, f func()) {
+	if s.aborted {
+		o.Do(f)
+		return
+	}
+	s.Yield()
+	t := s.cur
+	for s.rec(o).owner != nil {
+		t.state = tsLockWait
+		t.wantKey = o
+		if !s.dispatch(t) {
+			s.block(t)
+		}
+		if s.aborted {
+			panic(&abortRun{"aborted"})
+		}
+		t.wantKey = nil
+	}
+	s.rec(o).owner = t
+	defer func() {
+		if !s.aborted {
+			s.rec(o).owner = nil
+		}
+	}()
+	o.Do(f)
 }
 
 // GoForeign: this engine's tables belong to the one task that is running; a goroutine
